@@ -78,6 +78,12 @@ def one_contour(vc, rid, case, model):
         sample = model.draw_sample(n, random_state=rng)
         if case["ties"]:
             sample = np.round(sample, 1)
+        # memory layout of the caller's array is an input class: column-major arrays are what
+        # DataFrame.values / np.array([x, y]).T hand over, and their column views are contiguous
+        if case.get("layout") == "F":
+            sample = np.asfortranarray(sample)
+        elif case.get("layout") == "T":
+            sample = np.array([sample[:, 0].copy(), sample[:, 1].copy()]).T
     sink = []
     hooked = False
     try:
@@ -94,7 +100,7 @@ def one_contour(vc, rid, case, model):
         kw.update(lowest_theta=case["range"][0], highest_theta=case["range"][1])
     rec = dict(id=rid, mode=mode, a=a, b=b, en=en, ed=1000, exc="", tie=False, hooked=False, n=0,
                thetas=[], rays=[], coords=[], ptcount=[], ptangle=[], nwarn=0, xmaxc=0, ymaxc=0)
-    samp0 = None if sample is None else sample.copy()
+    samp0 = None if sample is None else np.array(sample, order="C", copy=True)
     exc = ""
     contour = None
     with warnings.catch_warnings(record=True) as wl:
@@ -121,6 +127,8 @@ def one_contour(vc, rid, case, model):
         return rec
     if samp0 is not None and not np.array_equal(samp0, sample):
         rec["exc"] = "SampleMutated"
+    if samp0 is not None:
+        sample = samp0          # exceedances are judged on the observations the caller supplied
     x, y = sample[:, 0], sample[:, 1]
     nn = len(x)
     rec["n"] = nn
@@ -183,13 +191,14 @@ def gen_cases(ctx):
         out.append(dict(alpha=(a, b), err=ERRS[int(rng.integers(0, len(ERRS)))], mode=mode,
                         step=STEPS[int(rng.integers(0, len(STEPS)))], supply=supply, defaultn=defaultn, n=n,
                         ties=bool(rng.integers(0, 4) == 0), range=OR_RANGES[int(rng.integers(0, len(OR_RANGES)))],
-                        model=int(rng.integers(0, 3)), seed=int(rng.integers(0, 2**31))))
+                        model=int(rng.integers(0, 3)), seed=int(rng.integers(0, 2**31)),
+                        layout=("C", "F", "T", "C")[(t // 5) % 4] if supply else "C"))
     return out
 
 
 def key_of(c):
     return (f"{c['mode']} model={c['model']} alpha={c['alpha'][0]}/{c['alpha'][1]} err={c['err']}/1000 step={c['step']} "
-            f"n={c['n']} supply={c['supply']} defaultn={c['defaultn']} ties={c['ties']} range={c['range']} seed={c['seed']}")
+            f"n={c['n']} supply={c['supply']} defaultn={c['defaultn']} ties={c['ties']} layout={c.get('layout', 'C')} range={c['range']} seed={c['seed']}")
 
 
 def judge(ctx, vc, cases):
